@@ -7,7 +7,7 @@ from .. import cast, sym, lin
 from .common import distinct_enums
 from ..sym import C, fmt, linearize as L
 from ..lin import Lin
-from .regs import Regs, T, strip_cast, size_facts, scan_rule, for_headers, touch_helpers
+from .regs import Regs, T, strip_cast, size_facts, scan_rule, for_headers, touch_helpers, callback_guard
 
 ADDR, N, BUF = ('v', 'addr'), ('v', 'n'), ('v', 'buf')
 
@@ -590,3 +590,4 @@ def run(ck):
     walker(ck, R, 'register_block_write_unsafe', 'C02.d', 'write')
     rule_e(ck, R)
     touch_helpers(R, 'C02.e', ('register_touch', 'register_was_touched'))
+    callback_guard(R, 'C02.b', 'ra_malformed_write', inline={'reg_read_entry'})
